@@ -78,7 +78,7 @@ Fixpoint has_top (t : lty) : bool :=
 Fixpoint top_sound (t : lty) : bool :=
   match t with
   | TMap v | TBot v | TVec v => top_sound v
-  | TTop v => negb (has_top v) && top_sound v
+  | TTop v => top_sound v
   | TPair a b | TDom a b => top_sound a && top_sound b
   | _ => true
   end.
@@ -125,13 +125,13 @@ Record obs (t : lty) := {
   o_ab_c : val t * bool;  o_bc : val t * bool;  o_a_bc : val t * bool;
   o_eq_aa_a : bool;  o_eq_ab_ba : bool;  o_eq_assoc : bool;  o_eq_ab_a : bool;  o_eq_ba_b : bool;
   o_cmp_ab : option comparison;  o_cmp_ba : option comparison;  o_eq_ab : bool;
-  o_bot_a : bool;  o_top_a : bool;
+  o_bot_a : bool;  o_top_a : bool;  o_bot_b : bool;  o_top_b : bool;
 }.
 Arguments o_ab {t}. Arguments o_ba {t}. Arguments o_aa {t}. Arguments o_ab_c {t}.
 Arguments o_bc {t}. Arguments o_a_bc {t}. Arguments o_eq_aa_a {t}. Arguments o_eq_ab_ba {t}.
 Arguments o_eq_assoc {t}. Arguments o_eq_ab_a {t}. Arguments o_eq_ba_b {t}.
 Arguments o_cmp_ab {t}. Arguments o_cmp_ba {t}. Arguments o_eq_ab {t}.
-Arguments o_bot_a {t}. Arguments o_top_a {t}.
+Arguments o_bot_a {t}. Arguments o_top_a {t}. Arguments o_bot_b {t}. Arguments o_top_b {t}.
 
 Definition model_obs (t : lty) (a b c : val t) : obs t :=
   let L := ops t in
@@ -142,7 +142,7 @@ Definition model_obs (t : lty) (a b c : val t) : obs t :=
      o_eq_assoc := eqb L (fst ab_c) (fst a_bc);
      o_eq_ab_a := eqb L (fst ab) a; o_eq_ba_b := eqb L (fst ba) b;
      o_cmp_ab := cmp L a b; o_cmp_ba := cmp L b a; o_eq_ab := eqb L a b;
-     o_bot_a := isbot L a; o_top_a := istop L a |}.
+     o_bot_a := isbot L a; o_top_a := istop L a; o_bot_b := isbot L b; o_top_b := istop L b |}.
 
 Definition cmp_eqb (x y : option comparison) : bool :=
   match x, y with
@@ -163,7 +163,8 @@ Definition obs_agree (t : lty) (i mo : obs t) : bool :=
   Bool.eqb (o_eq_ba_b i) (o_eq_ba_b mo) &&
   cmp_eqb (o_cmp_ab i) (o_cmp_ab mo) && cmp_eqb (o_cmp_ba i) (o_cmp_ba mo) &&
   Bool.eqb (o_eq_ab i) (o_eq_ab mo) &&
-  Bool.eqb (o_bot_a i) (o_bot_a mo) && Bool.eqb (o_top_a i) (o_top_a mo).
+  Bool.eqb (o_bot_a i) (o_bot_a mo) && Bool.eqb (o_top_a i) (o_top_a mo) &&
+  Bool.eqb (o_bot_b i) (o_bot_b mo) && Bool.eqb (o_top_b i) (o_top_b mo).
 
 Definition is_le (c : option comparison) : bool :=
   match c with Some Lt | Some Eq => true | _ => false end.
@@ -183,7 +184,9 @@ Definition C03_holds_b (t : lty) (i : obs t) : bool :=
   cmp_eqb (o_cmp_ba i) (option_map CompOpp (o_cmp_ab i)) &&
   Bool.eqb (o_eq_ab i) (cmp_eqb (o_cmp_ab i) (Some Eq)) &&
   (negb (o_bot_a i) || is_le (o_cmp_ab i)) &&
-  (negb (o_top_a i) || is_le (o_cmp_ba i)).
+  (negb (o_top_a i) || is_le (o_cmp_ba i)) &&
+  (* is_bot / is_top are properties of the lattice value: equal values agree on them *)
+  (negb (o_eq_ab i) || (Bool.eqb (o_bot_a i) (o_bot_b i) && Bool.eqb (o_top_a i) (o_top_b i))).
 
 (* correspondence only (types outside a property's side condition) *)
 Definition Ctrue_b (t : lty) (i : obs t) : bool := true.
